@@ -69,3 +69,16 @@ reg("C14", "E1-product",
     "Alphabet of 5 byte values; twins claimed only when an independent heuristic classifies both as text; "
     "dos2unix digest only for content that fits in one read; shake_* excluded (no fixed digest length).",
     "DESIGN.md §4 C14")
+
+reg("C20", "E1-product",
+    "exhaustive product of optional fields through every serialised form, plus all short set/overwrite/delete/commit/reopen sequences on the SQLite-backed index vs a dict model",
+    "Full product of the 11 metadata fields (5184 combinations incl. zero sizes and false-y strings) x 6 hash "
+    "variants x 3 loaded flags through dict round trips; covering (thorough: all pairs of) field variants in "
+    "3-entry indexes with non-ASCII / nested keys through write_json/read_json, write_db/read_db and the "
+    "SQLite-backed index incl. the root key (commit, close, reopen); every sequence of length 3 (thorough 4) "
+    "over {set k e, delete k, commit, commit+close+reopen} on 3 keys against a dict model (exercises the "
+    "identity cache in front of the JSON values); listings with metadata for 4 hash names via from_list and "
+    "Tree.load from both store classes. Oracle: independent projection to the serialised fields is unchanged.",
+    "Meta() == no metadata under the projection (by design). Keys of the textual forms are non-empty and "
+    "'/'-free as the property states. SQLite rollback is outside the claimed round trip.",
+    "DESIGN.md §4 C20")
